@@ -2,6 +2,7 @@ package main
 
 import (
 	"context"
+	"encoding/json"
 	"fmt"
 	"math/rand"
 	"strconv"
@@ -66,6 +67,7 @@ func (m *cuckooRedis) Exec(op Tok) (opOut Tok, obs Tok) {
 	inv := TL(TNu(9))
 	switch a[0].I() {
 	case ckNew:
+		before := redisKeys()
 		f, err := gx.NewCuckooFilterRedisWithRetries(a[2].U(), a[3].U(), a[4].U(), a[5].U())
 		if err != nil {
 			return op, TErr(errGeneric)
@@ -73,6 +75,9 @@ func (m *cuckooRedis) Exec(op Tok) (opOut Tok, obs Tok) {
 		key, meta := gx.VerifCuckooRedisKeys(f)
 		opOut = TL(a[0], a[1], a[2], a[3], a[4], a[5], TBs([]byte(key)), TBs([]byte(meta)))
 		m.inst[a[1].I()] = f
+		if t, bad := staleKey(before, key, meta); bad {
+			return opOut, t
+		}
 		return opOut, TUnit()
 	case ckInsert:
 		f := m.inst[a[1].I()]
@@ -135,6 +140,42 @@ func (m *cuckooRedis) Exec(op Tok) (opOut Tok, obs Tok) {
 		return opOut, cuckooRedisStateTok(f)
 	case ckMurmur:
 		return opOut, TNu(gx.VerifMurmur(a[1].B))
+	case opEquals:
+		x, y := m.inst[a[1].I()], m.inst[a[2].I()]
+		if x == nil || y == nil {
+			return opOut, inv
+		}
+		ok, _ := x.Equals(*y) // the Redis variants report "unequal" as (false, error)
+		return opOut, TOk(TBool(ok))
+	case opExport:
+		f := m.inst[a[1].I()]
+		opOut = TL(a[0], a[1])
+		if f == nil {
+			return opOut, inv
+		}
+		b, err := f.Export()
+		if err != nil {
+			return opOut, TErr(errGeneric)
+		}
+		m.rec.exports[labelOf(a, m.rec.step-1)] = b
+		return opOut, TOk(cuckooRedisDocTok(b))
+	case opImport:
+		f := m.inst[a[1].I()]
+		src, ok := m.rec.exports[a[2].I()]
+		if f == nil || !ok {
+			return TL(a[0], a[1]), inv
+		}
+		before := redisKeys()
+		err := f.Import(src, a[3].U() != 0)
+		key, meta := gx.VerifCuckooRedisKeys(f)
+		opOut = TL(a[0], a[1], cuckooRedisDocTok(src), a[3], TBs([]byte(key)), TBs([]byte(meta)))
+		if err != nil {
+			return opOut, TErr(errGeneric)
+		}
+		if t, bad := staleKey(before, key, meta); a[3].U() != 0 && bad {
+			return opOut, t
+		}
+		return opOut, TOk(TUnit())
 	case opAttach:
 		src := m.inst[a[2].I()]
 		if src == nil {
@@ -153,3 +194,33 @@ func (m *cuckooRedis) Exec(op Tok) (opOut Tok, obs Tok) {
 }
 
 var _ = fmt.Sprint
+
+func cuckooRedisDocTok(b []byte) Tok {
+	var d struct {
+		S   uint64 `json:"s"`
+		BS  uint64 `json:"bs"`
+		FPL uint64 `json:"fpl"`
+		L   uint64 `json:"l"`
+		R   uint64 `json:"r"`
+		B   []struct {
+			S uint64   `json:"s"`
+			L uint64   `json:"l"`
+			E []string `json:"e"`
+			K string   `json:"k"`
+		} `json:"b"`
+		K  string `json:"k"`
+		MK string `json:"mk"`
+	}
+	if json.Unmarshal(b, &d) != nil {
+		return TL(TNu(8))
+	}
+	bs := make([]Tok, len(d.B))
+	for i, bk := range d.B {
+		es := make([][]byte, len(bk.E))
+		for j, e := range bk.E {
+			es[j] = []byte(e)
+		}
+		bs[i] = TL(TNu(bk.S), TNu(bk.L), TListB(es), TBs([]byte(bk.K)))
+	}
+	return TL(TNu(d.S), TNu(d.BS), TNu(d.FPL), TNu(d.L), TNu(d.R), TL(bs...), TBs([]byte(d.K)), TBs([]byte(d.MK)))
+}
